@@ -132,7 +132,7 @@ def _case(draw, tier):
     for c in crashes:
         # how the run is interrupted: process death or Ctrl-C (the library's
         # own handlers run before the process exits)
-        c["exc"] = draw(st.sampled_from(["kill", "kill", "ctrlc"]))
+        c["exc"] = draw(st.sampled_from(["kill", "kill", "ctrlc", "error"]))
     cfg = dict(idspace=(ncr + 3) * nvar * (rep_max + 1) + 4,
                unpacked=unpacked, container={}, fixed=[["bias", 1.5],
                                                        ["mode", "x"]],
@@ -142,7 +142,7 @@ def _case(draw, tier):
                delete_partial=draw(st.booleans()), clock=clock)
     if draw(st.integers(0, 3)) == 0:
         cfg["partial_folder"] = None
-    final = draw(st.sampled_from(["same", "same", "same", "extend",
+    final = draw(st.sampled_from(["same", "same", "same", "jobs", "extend",
                                   "shrink_then_same", "guard_fixed",
                                   "guard_unpacked", "guard_unpacked_last"]))
     if final in ("guard_unpacked", "guard_unpacked_last") and not unpacked:
@@ -204,7 +204,8 @@ def _enumerate(tier):
             specs += [{"at": "remove", "k": k, "when": w}
                       for w in ("before", "after")]
         for s in specs:
-            for exc in ("kill", "ctrlc"):
+            for exc in ("kill", "ctrlc") + (
+                    ("error",) if s["at"] in ("call", "merge") else ()):
                 cases.append(dict(part="enum", cfg=cfg,
                                   crashes=[dict(s, exc=exc)], final="same"))
     return cases
@@ -375,7 +376,7 @@ def _run_scenario(case, ctx, tmp, real_exit_first=False):
             try:
                 runner.simulate()
                 fired = False
-            except (H.SimulatedCrash, KeyboardInterrupt):
+            except (H.SimulatedCrash, KeyboardInterrupt, H.SimulatedError):
                 fired = True
             env.crash_at_call = env.trap_at_call = None
             env.exc_kind = "kill"
@@ -393,6 +394,12 @@ def _run_scenario(case, ctx, tmp, real_exit_first=False):
                 ctx.label("crash_not_reached")
             del runner
             _durable_ids(inj, paths, tags, "after run %d" % ci)
+            # (NOT required: that repetitions saved once stay saved.  The
+            # statement asks for exact counts from durable + new repetitions;
+            # the unchanged library itself re-simulates a variation whose
+            # partial file was already deleted when the clean-up after the
+            # final save is interrupted.  A 'monotone durability' oracle was
+            # tried and withdrawn as over-reach, DESIGN 9.4.)
 
         # ---- final, clean run ------------------------------------------------
         env.run_no = len(case["crashes"])
@@ -474,6 +481,22 @@ def _run_scenario(case, ctx, tmp, real_exit_first=False):
             cfgf = dict(cfg, rep_max=cfg["rep_max"] + 3)
             rep_max2 = cfgf["rep_max"]
         log_start = len(env.log)
+        if final == "jobs":
+            # the documented cluster workflow: one simulate(index) job per
+            # variation, then simulate() collects.  A job that returns has
+            # finished its variation.
+            for v in range(nvar):
+                job = H.make_runner(env, cfgf)
+                job.simulate(v)
+                held = _durable_ids(inj, {v: paths[v]}, tags,
+                                    "after job %d" % v).get(v, [])
+                want = max(_R(cfg, v, rep_max2), len(D.get(v, [])))
+                if len(held) != want:
+                    raise Violation("job_incomplete", "simulate(%d) returned "
+                                    "but the partial file of the variation "
+                                    "holds %d of %d repetitions" %
+                                    (v, len(held), want), tags)
+                del job
         runner = H.make_runner(env, cfgf)
         runner.simulate()              # must complete: any exception = violation
         if env.param_errors:
